@@ -199,6 +199,52 @@ def statements(pid, limit=6):
 # M1: unit differential
 # ---------------------------------------------------------------------------
 
+def run_atomic(tier):
+    """M4: all interleavings of the real sender's atomic steps for small parameters (depth-first
+    replay inside synctest bubbles), each replayed on the Coq model of SenderCtl.v."""
+    os.makedirs(os.path.join(VERIF, '.cache'), exist_ok=True)
+    key = sim_cache_key('atomic', 0, 0, tier)
+    cpath = os.path.join(VERIF, '.cache', 'sim-%s.json' % key)
+    if os.path.exists(cpath):
+        try:
+            r = json.load(open(cpath)); r['cached'] = True
+            return r
+        except Exception:
+            pass
+    cases = os.path.join(WORK, 'atomic.%d.cases' % os.getpid())
+    env = dict(os.environ, ATOM_OUT=cases, ATOM_MAXDEPTH='12' if tier == 'thorough' else '10', ATOM_LEVEL=tier)
+    rc, o, dt = run([os.path.join(BIN, 'sim.test'), '-test.run', 'TestAtomic', '-test.timeout', '3000s'], env=env, timeout=3300)
+    res = {'component': 'atomic-sender', 'seed': 0, 'cases': 0, 'classes': {}, 'mismatches': [], 'failures': [],
+           'samples': [], 'go_s': round(dt, 1), 'error': None, 'distinct': 0}
+    if rc != 0 or not os.path.exists(cases):
+        res['error'] = 'atomic driver failed (exit %d): %s' % (rc, o[-2000:])
+        return res
+    rc, mo, dt = run([os.path.join(BIN, 'vmodel'), cases], timeout=3300)
+    if rc != 0:
+        res['error'] = 'model driver failed (exit %d): %s' % (rc, mo[-2000:])
+        return res
+    clines = [l for l in open(cases).read().split('\n') if l]
+    mlines = [l for l in mo.split('\n') if l]
+    if len(clines) != len(mlines):
+        res['error'] = 'model produced %d lines for %d cases' % (len(mlines), len(clines))
+        return res
+    depth = {}
+    for i, (c, m) in enumerate(zip(clines, mlines)):
+        cf = c.split('\t'); mf = m.split('\t')
+        d = len(cf[5]) if len(cf) > 5 else 0
+        depth['depth%02d' % d] = depth.get('depth%02d' % d, 0) + 1
+        if mf[0] != cf[-1]:
+            res['mismatches'].append({'line': i + 1, 'case': c[:600], 'model': mf[0][:400]})
+        for v in mf[1:]:
+            if v.startswith('FAIL'):
+                res['failures'].append({'line': i + 1, 'case': c[:600], 'monitor': v[:400]})
+    res['cases'] = len(clines); res['distinct'] = len(set(clines)); res['classes'] = depth
+    res['samples'] = [clines[i][:260] for i in range(0, len(clines), max(1, len(clines) // 3))][:3]
+    os.remove(cases)
+    json.dump(res, open(cpath, 'w'))
+    return res
+
+
 def run_unit(component, seed, count, tag=''):
     """Run the Go unit driver and the extracted model on the same cases.
     Returns dict: cases, classes, mismatches (correspondence), failures (monitor)."""
